@@ -107,6 +107,38 @@ def ssl2_header(ctx, report, RULE='C06.R4'):
     ssl2_parse_header(ctx, report, c, RULE)
 
 
+def declared_length(cond):
+    """the guard in front of NotEnoughData compares what the header declares with what is there: ``declared > available``,
+    ``available < declared`` or ``declared - available > 0`` (the difference held in a local).  Returns the declared side:
+    the terms of (greater - smaller) that are not the parser's unparsed_length"""
+    from ..values import Sym
+    op, a, b = cond.args
+    big, small = (a, b) if op == '>' else (b, a)
+
+    def terms(v, sign, out):
+        if isinstance(v, Sym) and v.op == 'add':
+            terms(v.args[0], sign, out)
+            terms(v.args[1], sign, out)
+        elif isinstance(v, Sym) and v.op == 'sub':
+            terms(v.args[0], sign, out)
+            terms(v.args[1], -sign, out)
+        else:
+            out.append((sign, v))
+        return out
+    ts = terms(big, 1, []) + terms(small, -1, [])
+    avail = [(sg, v) for sg, v in ts if isinstance(v, Sym) and v.op == 'ulen']
+    rest = [(sg, v) for sg, v in ts if not (isinstance(v, Sym) and v.op == 'ulen')]
+    if len(avail) != 1 or avail[0][0] != -1:
+        return None
+    rest = [(sg, v) for sg, v in rest if not (isinstance(v, int) and v == 0)]
+    if not rest or any(sg != 1 for sg, v in rest):
+        return None
+    out = rest[0][1]
+    for sg, v in rest[1:]:
+        out = Sym('add', out, v)
+    return out
+
+
 def ssl2_parse_header(ctx, report, c, RULE='C06.R4'):
     """parser side of R4, decided by tabulating the extracted header arithmetic over every value of the first header byte
     (draft-hickman-netscape-ssl-00 5.1): MSB set -> 2 byte header, RECORD-LENGTH = ((b0 & 0x7f) << 8) | b1, no padding;
@@ -126,10 +158,11 @@ def ssl2_parse_header(ctx, report, c, RULE='C06.R4'):
     k0, k1 = u1[0].args.get('name'), u1[1].args.get('name')
     length = None
     for n in nodes:
-        if isinstance(n, Alt) and isinstance(n.cond, Sym) and n.cond.op == 'cmp' and n.cond.args[0] == '>' and \
+        if isinstance(n, Alt) and isinstance(n.cond, Sym) and n.cond.op == 'cmp' and n.cond.args[0] in ('>', '<') and \
                 any(isinstance(x, Raise) and 'NotEnoughData' in show(x.exc) for x in walk(n.then)):
-            length = n.cond.args[1]
-            break
+            length = declared_length(n.cond)
+            if length is not None:
+                break
     pad_ops = [o for o in ops if o.prim == 'parse_raw' and o.args.get('name') == 'padding']
     if length is None or not pad_ops:
         report.add(RULE, p.construct + '@header', 'cannot find the declared record length check / the padding read of the SSL 2.0 record parser')
